@@ -323,7 +323,7 @@ def run(ctx):
                 fn.load()
                 fn.membership(val())
                 fn.evaluate({n: val() for n in variables})
-                ctx.hit("event:formula reloaded into the same term", "route:4", "route:5", "route:6")
+                ctx.hit("event:formula reloaded into the same term")
             except Exception:
                 pass
             mon.expected.pop(text2, None)
